@@ -2639,7 +2639,7 @@ package decimal128
 // Append (C06, C07): layout selection of the package-level Append / Format: for 'g'/'G' the same
 // switch-over rule as Decimal.format (precision -1 counts as 6).
 //@ func Append
-//@ uses rssteps=1,2,3,4,5,6,7,8,9,10,11,12,13,14,15,16,17,18,19,20,21,22,23,24,25,26,27,28,29,30,31,32,33,34,35,36,37,38,39 rsmono=0,1,2,3,4,5,6,7,8,9,10,11,12,13,14,15,16,17,18,19,20,21,22,23,24,25,26,27,28,29,30,31,32,33,34,35,36,37,38,39
+//@ uses rssteps=1,2,3,4,5,6,7,8,9,10,11,12,13,14,15,16,17,18,19,20,21,22,23,24,25,26,27,28,29,30,31,32,33,34,35,36,37,38,39 rsmono=0,1,2,3,4,5,6,7,8,9,10,11,12,13,14,15,16,17,18,19,20,21,22,23,24,25,26,27,28,29,30,31,32,33,34,35,36,37,38,39 timeout=30
 //@ returns (out)
 //@ logical V real
 //@ requires !special(d) ==> V >= 0 && rs(V, bexp(d)) == coef(d)
@@ -2652,7 +2652,9 @@ package decimal128
 //@ assert before "prec = 0"#3: old(prec) < 0 && digs.ndig >= 1 ==> real(p10(digs.ndig - 1)) <= rs(V, digs.exp + 6176) && rs(V, digs.exp + 6176) < real(p10(digs.ndig))
 //@ assert before "prec = 0"#3: old(prec) < 0 && coef(d) != 0 ==> rs(V, 6172) >= 1
 //@ assert before "prec = 0"#3: old(prec) < 0 && coef(d) != 0 ==> rs(V, 6182) < 1
-//@ assert before "return digs.fmtE(buf, prec-1, 0, false, false, false, true, false, false, e)": old(prec) < 0 ==> coef(d) != 0 && (rs(V, 6172) < 1 || rs(V, 6182) >= 1)
+//@ assert before "return digs.fmtE(buf, prec-1, 0, false, false, false, true, false, false, e)": old(prec) < 0 ==> coef(d) != 0 && digs.ndig >= 1
+//@ assert before "return digs.fmtE(buf, prec-1, 0, false, false, false, true, false, false, e)": old(prec) < 0 && X < 0 - 4 ==> rs(V, 6172) < 1
+//@ assert before "return digs.fmtE(buf, prec-1, 0, false, false, false, true, false, false, e)": old(prec) < 0 && X >= 6 ==> rs(V, 6182) >= 1
 //@ define A0 = len(old(buf))
 //@ ensures isnan(d) ==> len(out) == A0 + 3 && out[A0] == 78 && out[A0 + 1] == 97 && out[A0 + 2] == 78
 //@ ensures isinf(d) ==> len(out) == A0 + 4 && out[A0] == ite(sign(d), 45, 43) && out[A0 + 1] == 73 && out[A0 + 2] == 110 && out[A0 + 3] == 102
